@@ -282,7 +282,7 @@ namespace bxdecay0 {
       if (_pimpl_->parsed_event_counter <= _config_.start_event) {
         if (is_debug()) std::cerr << "[debug] bxdecay0::event_reader::load_next_event: Skipping event up to the starting index...\n";
         evt_.reset();
-      } else if ((_config_.max_nb_events > 0) and (_pimpl_->parsed_event_counter == _config_.start_event + _config_.max_nb_events)) {
+      } else if ((_config_.max_nb_events > 0) and (_pimpl_->parsed_event_counter - _config_.start_event == _config_.max_nb_events)) {
         if (is_debug()) std::cerr << "[debug] bxdecay0::event_reader::load_next_event: Maximum number of events reached.\n";
         _terminated_ = true;
         _close_current_file_();
